@@ -9,7 +9,7 @@ EXPLANATION = ('Static rules on the five subject types (instances of the same ma
                'one live range of the `observers` guard; J2 every notification first moves the waiting subscribers from the side list into '
                'the live list (load) and subscribe only ever pushes into the side list; J3 terminals take() the live list, unsubscribe takes '
                'both lists, is_finished/is_closed answer "live list is None", subscribing to an unsubscribed subject yields an empty '
-               'subscriber; J4 the terminal broadcast skips closed subscribers. Decides the mechanism behind "a subscriber added during an '
+               'subscriber; J4 the terminal broadcast skips closed subscribers; J5 the stored subscriber handle delivers under its slot guard and never re-fills its slot (unsubscribe-one is effective and final). Decides the mechanism behind "a subscriber added during an '
                'emission does not see the in-flight item"; does not decide exactly-once delivery over join/leave histories.')
 ASSUMPTIONS = ['SmallVec keeps insertion order; RefCell/Mutex guards give exclusive access']
 
@@ -20,6 +20,7 @@ CONTROLS = [
     'J2|<verif_controls::BadSubject<Item> as Observer>::next',
     'J2|<verif_controls::BadSubject<Item> as Observable>::actual_subscribe',
     'J3|<verif_controls::BadSubject<Item> as Observer>::complete',
+    'J5|<verif_controls::Reopenable<O>>::reopen',
 ]
 
 
@@ -139,6 +140,7 @@ def check(cx):
                                        fn['span']))
                 elif moves:
                     res.append(Finding(ID, 'J2', cx.label(fn), False, 'writes into the live list outside load()', fn['span'], [node_desc(g, moves[0])]))
+    res += j5(cx)
     if not cx.control:
         for t in SUBJECTS:
             if t not in seen:
@@ -153,3 +155,18 @@ def _is_none_answer(cx, fn):
     consts = [n for n in g.nodes if n['kind'] == 'assign' and not n['ctx'] and n['lhs'][0] == 'local' and n['lhs'][1] == 0 and const_bool(n['rhs']) is not None]
     ok = len(isn) == 1 and not consts
     return Finding('C06', 'J3', label, ok, 'answers observers.is_none()' if ok else 'does not answer from the live list being None', fn['span'])
+
+
+def j5(cx):
+    """unsubscribe-one takes effect at once and for good: the subscriber handle a subject stores delivers while holding
+    its slot guard (so an unsubscribe on another thread cannot slip in between) and never re-fills its slot"""
+    from . import c02, c17
+    res = []
+    for f in c02.u6(cx, tags=('subscriber::Subscriber', 'subscriber::SubscriberThreads'), prop=ID, rule='J5'):
+        if cx.control and 'EarlyReleaseSlot' in f.key:
+            continue
+        res.append(f)
+    for f in c17.k3(cx):
+        if f.key.startswith(('<subscriber::Subscriber', '<verif_controls::Reopenable')):
+            res.append(Finding(ID, 'J5', f.key, f.ok, f.msg if f.ok else 'the subscriber handle re-fills its slot: an unsubscribe that emptied it meanwhile is undone and the unsubscribed subscriber keeps receiving', f.loc, f.witness))
+    return res
